@@ -107,7 +107,8 @@ def observe (r : Rep) (ws : List String) : Option String :=
 def rbAllowed (phase : Nat) : List String :=
   -- before the swap the source's location map depends on which RW replica served the controller's
   -- widening reads, so it is not observed
-  if phase = 1 then ["w", "r", "full", "rbreload", "rbend", "punch"]
+  if phase = 1 then ["w", "r", "full", "rbreload", "rbend", "punch", "rbabort"]
+  else if phase = 5 then ["w", "r", "full", "rbend"]   -- after an interrupted rebuild
   else ["w", "r", "full", "holes", "loc", "meta", "imeta", "apply", "lunmap", "rbpromote", "rbend", "cands", "punch", "cmp", "csnap", "killq", "crevert"]
 
 partial def loop (h : IO.FS.Stream) (out : IO.FS.Stream) (r : Rep) : IO Unit := do
@@ -130,6 +131,9 @@ partial def loop (h : IO.FS.Stream) (out : IO.FS.Stream) (r : Rep) : IO Unit := 
       let (r', o) := r.step (.write off len tag)
       out.putStrLn (showOut o ++ " reps=2"); loop h out { r' with qDead := true }
     | _, _, _ => out.putStrLn "bad-op"; loop h out r
+  | ["rbabort"] =>   -- the rebuild is interrupted before the transfer: the newcomer stays WO, never readable
+    if r.rb ≠ 1 then do out.putStrLn "inadmissible"; loop h out r else
+    do out.putStrLn "aborted newcomer=WO"; loop h out { r with rb := 5 }
   | ["crevert", n] =>   -- Controller.Revert: every RW replica reverts through its REST endpoint
     if r.rb ≠ 3 then do out.putStrLn "inadmissible"; loop h out r else
     let (r', o) := r.step (.revert n)
